@@ -8,3 +8,7 @@ import Adsg.Props.C12
 #print axioms Adsg.C12.getBest_in_range
 #print axioms Adsg.C12.getBest_total
 #print axioms Adsg.C12.selectStaged_total
+#print axioms Adsg.C12.cachedGet_idempotent
+#print axioms Adsg.C12.cachedGet_preserves
+#print axioms Adsg.C12.reset_forgets
+#print axioms Adsg.C12.reset_keeps_others
